@@ -27,7 +27,10 @@ def gen_tzinfo():
 
     out += zlist('TZ_DAY_IN_MONTHS_NORMAL_YEAR', table(mi, 'DAY_IN_MONTHS_NORMAL_YEAR', 12))
     out += zlist('TZ_CUMUL_DAY_IN_MONTHS_NORMAL_YEAR', table(mi, 'CUMUL_DAY_IN_MONTHS_NORMAL_YEAR', 12))
-    ti = find_items(tsrc)
+    # the constants of timezone.rs may live in any of the three files of the private module
+    ti = dict(find_items(msrc))
+    ti.update(find_items(rsrc))
+    ti.update(find_items(tsrc))
     env = eval_simple_consts(ti, ['SECONDS_PER_WEEK', 'SECONDS_PER_28_DAYS'], env)
     for n in ('SECONDS_PER_WEEK', 'SECONDS_PER_28_DAYS'):
         out += defn('TZ_' + n, env[n])
